@@ -72,6 +72,36 @@ func GoodFresh(n int, e []byte) *D {
 	return &D{N: n, E: c}
 }
 
+// FRESH through a whole-struct copy whose slice fields are replaced right away
+type D2 struct {
+	N    int
+	E, F []byte
+}
+
+func (d *D2) GoodCopy() *D2 {
+	c := *d
+	c.E = make([]byte, len(d.E))
+	copy(c.E, d.E)
+	c.F = make([]byte, len(d.F))
+	copy(c.F, d.F)
+	return &c
+}
+
+func (d *D2) BadCopyOneField() *D2 {
+	c := *d
+	c.E = make([]byte, len(d.E))
+	copy(c.E, d.E)
+	return &c
+}
+
+func (d *D2) BadCopyReadFirst() *D2 {
+	c := *d
+	keep := c.F
+	c.F = make([]byte, len(d.F))
+	c.E = keep
+	return &c
+}
+
 // RETAIN
 func NewKeeper(k []int) *T         { return &T{kept: k} }
 func (t *T) BadWriteKept()         { t.kept[0] = 7 }
